@@ -166,7 +166,9 @@ def run_case(desc):
                     add("sample_y-not-reproducible", "two calls with random_state=%d differ" % rs_a)
                 s3 = np.asarray(reg.sample_y(Qs, n_samples=3, random_state=6))
                 # a spread below the rounding unit of the mean legitimately yields samples equal to the mean
-                wide = (sd[ok_rows] > 1e-9 * (1.0 + np.abs(mu[ok_rows]))).any()
+                # (1e-3: a Gaussian process whose covariance matrix is ~1e-10 samples exactly its mean - scikit-learn clips
+                # the tiny eigenvalues)
+                wide = (sd[ok_rows] > 1e-3 * (1.0 + np.abs(mu[ok_rows]))).any()
                 if wide and s1.shape == s3.shape and np.array_equal(s1, s3):
                     add("sample_y-ignores-random_state", "random_state=%d and 6 give identical samples" % rs_a)
         # ---- documented fall-back of the wrappers
